@@ -381,6 +381,66 @@ def oracle_batch_backing(ck, rng):
                          key={"site": "batch-backing", "what": bad[0]}, oracle="batch_backing_matrix")
 
 
+def oracle_imread_and_mock(ck, rng):
+    """(a) tomograms read lazily from a file with any chunking report the shape they really have, and loaders on them equal loaders on the
+    array; (b) a MockLoader with projection noise gives the same sub-volumes whichever scheduler runs it, twice in a row, and for
+    load(i) vs asnumpy()[i]"""
+    import dask, tempfile, shutil, os
+    import mrcfile
+    from acryo import SubtomogramLoader, Molecules, imread, MockLoader
+    from scipy.spatial.transform import Rotation
+    d = tempfile.mkdtemp(prefix="c10", dir=common.WORKROOT)
+    try:
+        vol = rng.normal(size=(20, 24, 28)).astype(np.float32)
+        path = os.path.join(d, "t.mrc")
+        with mrcfile.new(path, overwrite=True) as f:
+            f.set_data(vol)
+            f.voxel_size = 10.0
+        # molecules near the far faces, so that the declared shape matters for the padding
+        mol = Molecules(np.array([[17.5, 21.5, 25.5], [10.0, 12.0, 14.0], [18.0, 3.0, 26.0]]), Rotation.random(3, random_state=2))
+        ref = SubtomogramLoader(vol, mol, order=1, output_shape=(5, 5, 5)).asnumpy()
+        for chunks in ("auto", (16, 16, 16), (7, 24, 9), (20, 5, 28), (8, 8, 8)):
+            ck.oracle_count("imread_chunks", 1, 1)
+            try:
+                ldr = imread(path, mol, order=1, scale=1.0, output_shape=(5, 5, 5), chunks=chunks)
+                lazy = ldr.image
+                real = np.asarray(lazy.compute()).shape
+                detail = "" if tuple(lazy.shape) == vol.shape == real else f"declares shape {tuple(lazy.shape)}, computing it yields {real}, the file holds {vol.shape}"
+                if not detail:
+                    got = ldr.asnumpy()
+                    if not np.allclose(got, ref, atol=1e-5):
+                        detail = f"sub-volumes differ from those of the in-memory array by up to {np.abs(got - ref).max():.3f}"
+            except Exception as e:  # noqa
+                detail = f"raised {type(e).__name__}: {str(e)[:150]}"
+            if detail:
+                ck.violation(what=f"imread(..., chunks={chunks}): {detail}", inp={"shape": list(vol.shape), "chunks": chunks},
+                             key={"site": "imread", "symptom": detail.split(" ")[0]}, oracle="imread_chunks")
+    finally:
+        shutil.rmtree(d, ignore_errors=True)
+    # (b)
+    tmpl = np.zeros((9, 9, 9), dtype=np.float32); tmpl[3:6, 2:7, 4:6] = 1.0
+    molm = Molecules(rng.normal(size=(4, 3)) * 0.5, Rotation.random(4, random_state=5))
+    mk = lambda: MockLoader(tmpl, molm, noise=0.3, degrees=np.linspace(-60, 60, 7), order=1)
+    with dask.config.set(scheduler="synchronous"):
+        base = np.asarray(mk().asnumpy())
+        again = np.asarray(mk().asnumpy())
+        single = np.stack([np.asarray(mk().load(i)) for i in range(4)])
+    fails = []
+    if not np.allclose(base, again, atol=1e-6): fails.append("two synchronous evaluations differ")
+    if not np.allclose(base, single, atol=1e-6): fails.append("load(i) differs from asnumpy()[i]")
+    for kw in (dict(scheduler="threads", num_workers=4), dict(scheduler="processes", num_workers=2)):
+        try:
+            with dask.config.set(**kw):
+                other = np.asarray(mk().asnumpy())
+            if not np.allclose(base, other, atol=1e-6): fails.append(f"{kw['scheduler']} scheduler differs from synchronous by up to {np.abs(base - other).max():.3f}")
+        except Exception as e:  # noqa
+            fails.append(f"{kw['scheduler']} scheduler raised {type(e).__name__}: {str(e)[:100]}")
+    ck.oracle_count("mock_loader_schedulers", 1, 1)
+    for fl in fails:
+        ck.violation(what=f"MockLoader(noise=0.3, degrees=...): {fl}", inp={"noise": 0.3, "tilts": 7}, key={"site": "mock-loader", "symptom": fl.split(" ")[0]},
+                     oracle="mock_loader_schedulers")
+
+
 class SlowWedge:
     """a user-defined tilt model whose mask construction takes a while (I/O bound), so that several worker threads are
     inside the shared alignment model at the same time: makes interleavings on shared model state reproducible"""
@@ -469,6 +529,7 @@ def run(ck: common.Check):
     oracle_schedulers(ck, rng)
     oracle_shared_state(ck, rng)
     oracle_batch_backing(ck, np.random.default_rng(ck.seed + 101010))
+    oracle_imread_and_mock(ck, np.random.default_rng(ck.seed + 10101))
 
 
 def replay_file(data):
